@@ -102,6 +102,17 @@ func genHistConfig(r Rng) (bs.BloomSearchEngineConfig, tokMode, string, []string
 	cfg.BloomFalsePositiveRate = pick(r, []float64{1e-4, 0.001, 0.01, 0.2, 0.9})
 	cfg.MaxQueryConcurrency = pick(r, []int{1, 2, 4, 1000})
 	cfg.MaxFilesToMergePerOperation = 2 + r.IntN(6)
+	if r.Chance(0.35) {
+		// merge-friendly: blocks of different files really are combined (not just copied), so merged
+		// metadata (minmax ranges, filters, counts) is exercised
+		cfg.MaxRowGroupRows = 40 + r.IntN(100)
+		cfg.MaxRowGroupBytes = 10 << 20
+		cfg.MaxBufferedBytes = 1 << 20
+		if len(keys) == 0 {
+			keys = []string{"k1"}
+			cfg.MinMaxIndexes = keys
+		}
+	}
 	return cfg, tm, pm, keys
 }
 
